@@ -97,7 +97,7 @@ func c14Build(tier string) []c14Resp {
 	return set
 }
 
-var c14Kinds = []string{"eof", "eof-with-data", "reset", "timeout", "transient"}
+var c14Kinds = []string{"eof", "eof-with-data", "reset", "timeout", "transient", "transient-eof"}
 
 const c14WriteRuns = 400
 
@@ -110,7 +110,7 @@ func (c14) NRuns(tier string) int {
 }
 func (c14) Exhaustive(tier string) bool { return true }
 func (c14) Rule() string {
-	return "enumeration: a set of responses (quick 24, thorough 500; up to 260 body bytes, 1..4 packets, drawn from VERIF_SEED) x EVERY byte offset k in 0..len(wire) x failure kind {EOF, EOF returned together with the last bytes, connection reset, timeout error, one transient timeout error after which the stream goes on}; plus 400 request-write failures (write j accepts n bytes and fails); PacketReadTimeout in {1,2,5}s and EOF poll cost vary per case; non-trivial = 0<k<len(wire) or a write fault fired; distinct = distinct (response, k, kind); exhaustive over offsets per response set"
+	return "enumeration: a set of responses (quick 24, thorough 500; up to 260 body bytes, 1..4 packets, drawn from VERIF_SEED) x EVERY byte offset k in 0..len(wire) x failure kind {EOF, EOF returned together with the last bytes, connection reset, timeout error, one read failing with a timeout error or with (0, io.EOF) after which the stream goes on}; plus 400 request-write failures (write j accepts n bytes and fails); PacketReadTimeout in {1,2,5}s and EOF poll cost vary per case; non-trivial = 0<k<len(wire) or a write fault fired; distinct = distinct (response, k, kind); exhaustive over offsets per response set"
 }
 func (c14) Components() map[string]string {
 	return map[string]string{"tds (reader goroutine incl. EOF busy-wait and read timeout, Channel, parsers)": "real (rewritten)", "transport": "stub: simrt.Conn with close/reset/timeout/write-error faults at exact byte offsets", "server": "stub: sim/peer zoo encoders + packetiser", "clock/contexts": "simulated (read timeouts cost no wall time)"}
@@ -132,7 +132,7 @@ func (c14) Gen(r *Rand, idx int, tier string) interface{} {
 			if idx%4 == 3 {
 				p.QueueSize = 1 + (idx/4)%2
 			}
-			if idx%6 == 1 && p.Kind != "eof-with-data" && p.Kind != "transient" {
+			if idx%6 == 1 && p.Kind != "eof-with-data" && !strings.HasPrefix(p.Kind, "transient") {
 				p.FailDelayMs = []int{500, 1000, 2000, 10000}[(idx/6)%4] * p.ReadTimeoutS / 2
 			}
 			return p
@@ -208,7 +208,7 @@ func (c14) Run(plan interface{}, schedSeed uint64, replay []simrt.Choice, lenien
 		term = simrt.TermTimeout
 	}
 	cfg := simrt.Config{Seed: schedSeed, Strategy: "uniform", ColdQueueLocks: true, EOFReadCostMs: p.EOFCostMs, MaxSteps: 250000, Replay: replay, Lenient: lenient, KeepLog: keepLog}
-	if p.Kind == "transient" {
+	if p.Kind == "transient" || p.Kind == "transient-eof" {
 		return c14RunTransient(p, v, cfg, base, pk, wire, drain)
 	}
 	got := runResp(cfg, respDelivery{Packets: pk, TermAt: p.K, TermKind: term, TermWithData: withData, Async: p.Async, TermDelay: time.Duration(p.FailDelayMs) * time.Millisecond},
@@ -476,7 +476,7 @@ func pktLens(pk [][]byte) []int {
 // up (a prefix, then errors) or recover (the whole response); it may not deliver anything the server did not send.
 func c14RunTransient(p *c14Plan, v *Verdict, cfg simrt.Config, base *respResult, pk [][]byte, wire []byte, drain time.Duration) (*Verdict, *simrt.Outcome) {
 	got := runResp(cfg, respDelivery{Packets: pk, TermAt: -1, Async: p.Async},
-		respClient{QueueSize: c14Queue(p), ReadTimeoutS: p.ReadTimeoutS, DrainFor: drain, ReadSizes: c14ReadSizes(p.ReadSize, len(wire)), MaxErrs: 10, Transients: []int{p.K}})
+		respClient{QueueSize: c14Queue(p), ReadTimeoutS: p.ReadTimeoutS, DrainFor: drain, ReadSizes: c14ReadSizes(p.ReadSize, len(wire)), MaxErrs: 10, Transients: []int{p.K}, TransientEOF: p.Kind == "transient-eof"})
 	out := got.Out
 	StdOutcome(v, base.Out)
 	StdOutcome(v, out)
@@ -493,7 +493,11 @@ func c14RunTransient(p *c14Plan, v *Verdict, cfg simrt.Config, base *respResult,
 		v.Probe("baseline-rejected-response")
 		return v, out
 	}
-	where := fmt.Sprintf("one read fails with a timeout error after %d of %d wire bytes (packets %v) of %v, then the stream goes on", p.K, len(wire), pktLens(pk), p.Entries)
+	what := "a timeout error"
+	if p.Kind == "transient-eof" {
+		what = "(0, io.EOF)"
+	}
+	where := fmt.Sprintf("one read fails with "+what+" after %d of %d wire bytes (packets %v) of %v, then the stream goes on", p.K, len(wire), pktLens(pk), p.Entries)
 	if out.Budget {
 		v.Budget = false
 		v.Violate("livelock", "the client spins after a transient read error", "%s: after %d scheduler steps the client is still busy", where, out.Steps)
@@ -511,10 +515,18 @@ func c14RunTransient(p *c14Plan, v *Verdict, cfg simrt.Config, base *respResult,
 		if len(errsOnly(got.Recs)) == 0 && len(have) < len(B) {
 			v.Violate("no-error", "neither the whole response nor an error after a transient read error", "%s: %d of %d packages delivered and no error reported", where, len(have), len(B))
 		}
-		v.Nontrivial = fmt.Sprintf("%v|%v|%d|transient", p.Entries, p.Cuts, p.K)
+		v.Nontrivial = fmt.Sprintf("%v|%v|%d|%s", p.Entries, p.Cuts, p.K, p.Kind)
 	}
 	if len(have) == len(B) {
 		v.Probe("transient-recovered")
+	} else if v.Class == "" {
+		// the library gave up on the connection: then every receive fails, in time - none waits for its own deadline
+		for _, r := range got.Recs {
+			if r.Err != "" && (strings.Contains(r.Err, "context deadline exceeded") || strings.Contains(r.Err, "context canceled")) {
+				v.Violate("later-receive-blocked", "a receive after a transient read error blocked until its own deadline", "%s: %d of %d packages delivered, then a receive only returned when the consumer's context expired at t=%v", where, len(have), len(B), r.Now)
+				break
+			}
+		}
 	}
 	v.Sample = map[string]interface{}{"kind": p.Kind, "k": p.K, "wire": len(wire), "delivered": len(have), "errors": len(errsOnly(got.Recs))}
 	return v, out
@@ -627,5 +639,5 @@ func c14RunWrite(p *c14Plan, schedSeed uint64, replay []simrt.Choice, lenient, k
 
 // RequiredProbes: a batch in which one of these never fired explored nothing of that kind (exit 2, not a pass).
 func (c14) RequiredProbes() []string {
-	return []string{"kind:eof", "kind:eof-with-data", "kind:reset", "kind:timeout", "kind:transient", "kind:write"}
+	return []string{"kind:eof", "kind:eof-with-data", "kind:reset", "kind:timeout", "kind:transient", "kind:transient-eof", "kind:write"}
 }
